@@ -92,15 +92,17 @@ def _one_call(collocator, P, S, row, conf, rng, emb):
     if conf.get("inflated"):
         extraP = quarantine(1001, +1, conf["T"], rng)
         extraS = quarantine(1001, -1, conf["T"], rng)
-    dp = cm.dataset(P, emb, conf["shape"], extra=extraP)
-    ds = cm.dataset(S, emb, conf["shape"], extra=extraS)
+    # grids whose second pixel is a valid (quarantined) point: only where quarantine is sound (equator embedding, k <= 1)
+    q = conf["shape"] in ("grid", "grid2") and conf["embedding"] == "equator" and k <= 1 and conf.get("second_pixel_valid", True)
+    dp = cm.dataset(P, emb, conf["shape"], extra=extraP, qpole=+1 if q else None)
+    ds = cm.dataset(S, emb, conf["shape"], extra=extraS, qpole=-1 if q else None)
     kw = {"max_interval": cm.interval_arg(I, conf["sp"]), "max_distance": cm.distance_arg(k, N, conf["sp"]),
           "bin_factor": conf["bin_factor"], "magnitude_factor": conf["magnitude_factor"], "leaf_size": conf["leaf_size"]}
     if conf.get("window", True):
         kw["start"], kw["end"] = cm.window_arg(ws, we)
     res = collocator.collocate(dp, ds, **kw)
     got = cm.project(res, N)
-    if conf.get("inflated") and not got["none"]:
+    if (conf.get("inflated") or q) and not got["none"]:
         # quarantine points carry id 0 and may never collocate with anything
         if any(a == 0 or b == 0 for a, b in got["pairs"]):
             got["pairs"] = [[-1, -1]]
@@ -109,10 +111,10 @@ def _one_call(collocator, P, S, row, conf, rng, emb):
 
 
 def confs_for(n, tier):
-    shapes = ["linear", "grid", "timedim"]
+    shapes = ["linear", "grid", "timedim", "grid2"]
     out = []
     embs = list(EMB)
-    base = {"embedding": embs[n % 3], "shape": shapes[n % 3], "sp": n % 8, "tick_s": [60, 1][(n // 3) % 2], "bin_factor": 1 + n % 2,
+    base = {"embedding": embs[n % 3], "shape": shapes[n % 4], "sp": n % 8, "tick_s": [60, 1][(n // 3) % 2], "bin_factor": 1 + n % 2,
             "magnitude_factor": [1, 10][(n // 2) % 2], "leaf_size": [1, 40][(n // 3) % 2]}
     out.append(base)
     if tier != "quick":
@@ -167,7 +169,7 @@ def replay_inflated(col, item):
     rows = [r for r in case["rows"] if r[0] >= 1 and r[1] <= 1]
     rows = sorted(rows, key=lambda r: (len(r[4]) == 0, (r[0] + r[1] + r[2] + n) % 5))[:2]
     for row in rows:
-        conf = {"embedding": "equator", "shape": "linear", "sp": n % 5, "bin_factor": [1, 2, 0.5, 3, 0.25][n % 5], "magnitude_factor": 10,
+        conf = {"embedding": "equator", "shape": ["linear", "grid2", "grid"][n % 3], "sp": n % 5, "bin_factor": [1, 2, 0.5, 3, 0.25][n % 5], "magnitude_factor": 10,
                 "leaf_size": 40, "inflated": True, "T": T}
         for swapped in (False, True):
             a, b = (S, P) if swapped else (P, S)
@@ -215,6 +217,18 @@ def record_history(rng, tid):
     if fine:
         k = 333                                         # threshold (333.5 units = 10.005 km) sits mid-gap
         pool = [[(0, 0)], [(0, 332)], [(0, 334)], [(0, 1)], [(0, 335), (1, 331)], [(0, 0), (1, 2)]]
+        # the caller keeps its dataset objects and OVERWRITES their arrays in place between the calls (per side and length)
+        live = {}
+        def reuse(side, pts):
+            fresh = fine_dataset(pts)
+            key = (side, len(pts))
+            if key not in live or rng.random() < 0.3:
+                live[key] = fresh
+                return fresh
+            old = live[key]
+            for v in ("time", "lat", "lon", "id"):
+                old[v].values[:] = fresh[v].values
+            return old
         for _ in range(rng.choice([3, 4, 5])):
             P = rng.choice(pool)
             S = rng.choice(pool)
@@ -223,7 +237,7 @@ def record_history(rng, tid):
             try:
                 kw = {"max_interval": cm.interval_arg(I, 0), "max_distance": (k + 0.5) * 0.030,
                       "magnitude_factor": rng.choice([1, 10])}
-                res = c.collocate(fine_dataset(P), fine_dataset(S), **kw)
+                res = c.collocate(reuse("P", P), reuse("S", S), **kw)
                 got = cm.project(res, FINE_N)
                 if not got["none"]:
                     got["cls"] = [fine_classify(float(d)) for d in res["Collocations/distance"].values]
